@@ -225,6 +225,24 @@ PROPS = {
         assumptions=["one address per session (the pool is keyed by SEID)"],
         timeout={"quick": 900, "thorough": 7200},
     ),
+    "C01": dict(
+        lean=["Upf.Props.C01"],
+        level="proof",
+        claim="Crash: regenerated structural facts (the dispatcher starts with a recover that neither re-panics nor exits; every message-level IE field is nil-tested "
+              "before use) + totality of the parser models. Wedge: never_blocks - with the two regenerated pending-request facts no response (late, duplicated, any "
+              "sequence number) blocks the reader in any reachable state; the negative witness without the delete is proved too. Tie: against the REAL agent "
+              "(child process), every single IE mutation (drop / duplicate / empty / 4 retypes / truncate / one byte / all ones / IPv6-only / every token-prefix of a flow "
+              "description) of every IE position, recursively, of 16 message templates, in six states, each followed by a valid Heartbeat Request; a raw stream of random / "
+              "bit-flipped / truncated datagrams; a valid request on another association every 200 cases.",
+        note="partial: Go runtime failures outside the model (stack/heap exhaustion, data races - C11) and what recover cannot undo (a handler interrupted half-way) are not "
+             "proved; message.Parse of go-pfcp is trusted to return or fail (exercised by the raw stream). Quick tier samples 1/6 of the mutations outside the state "
+             "'session'; thorough runs all of them in all states.",
+        rule="16 templates x every IE position x 10-12 mutations (+ flow-description prefixes) x 6 states (full in state 'session', sampled elsewhere in quick); 3000 raw datagrams "
+             "with a liveness barrier every 50; non-trivial = a case that was answered",
+        trusted_base=[GO_LIBS, "go-pfcp message.Parse", "loopback UDP", "fake BESS server"],
+        assumptions=[],
+        timeout={"quick": 1500, "thorough": 20000},
+    ),
 }
 
 NOT_APPLICABLE = {}
